@@ -110,6 +110,8 @@ def gen_contain(rng, tier):
         names.append(name)
     probes = []
     pool = list(inside) + names + [n + "/secret" for n in names] + [n + "/inner" for n in names] + [n + "/a.txt" for n in names]
+    # '..' behind a link: the kernel applies it after following the link (root/l -> elsewhere/dir ; l/../secret = elsewhere/secret)
+    pool += [n + "/../" + t for n in names for t in ("secret", "inner", "dir/inner", "top_secret", "../top_secret", "a.txt", "*")]
     for _ in range(rng.randint(10, 22)):
         kind = rng.random()
         if kind < 0.35:
@@ -129,7 +131,8 @@ def gen_contain(rng, tier):
             path = "/" + rng.choice(pool)
         factory = rng.choice(["simple_file", "simple_file", "glob_file", "first_file", "foreach_collect", "provider"])
         if factory == "glob_file" and rng.random() < 0.5:
-            path = rng.choice(["etc/*", "etc/*/*", "*/*", "var/*", "*", "etc/l*", "../*/secret", "../" + root_name + "*/secret"])
+            path = rng.choice(["etc/*", "etc/*/*", "*/*", "var/*", "*", "etc/l*", "../*/secret", "../" + root_name + "*/secret"] +
+                              [n + "/../*" for n in names[:3]] + [n + "/../*/*" for n in names[:2]])
         probes.append({"factory": factory, "path": path, "ctx": rng.choice(CTXS), "kind": rng.choice(["text", "text", "raw"])})
     return {"mode": "contain", "root_name": root_name, "siblings": siblings, "inside": inside, "outside": outside,
             "links": links, "probes": probes}
